@@ -3,7 +3,7 @@
      ("encode" spec)            -> (ehdr-bytes (shdr-bytes ...) (phdr-bytes ...))   Spec encoders
      ("run" img spec queries)   -> (wf (model-answer ...) (spec-answer ...))
      ("history" img spec ops)   -> (wf (model-answer ...) (spec-answer ...)): the calls ops made IN ORDER on ONE object
-                                   ops = ("take" type|"<none>" k) ("iter" type|"<none>") ("has" #n) ("index" #n) ("by_name" #n)
+                                   ops = ("take" type|"<none>" k) ("iter" type|"<none>") ("segs" type|"<none>") ("has" #n) ("index" #n) ("by_name" #n)
      ("anchors")                -> (((machine code name) ...) ((machine code name) ...))   Spec/C01Machines.v sh_anchors, p_anchors
    spec    = (is64 le (ei_version ei_osabi ei_abiversion #pad e_type ... e_shstrndx)
               ((#name (sh_name ... sh_entsize)) ...) ((p_type p_flags p_offset ... p_align) ...) shstrndx)
@@ -124,12 +124,14 @@ Definition rd_hop (x : sx) : hop :=
   let op := gS (nthx 0 l) in
   if is op "take" then HTake (rd_oty (nthx 1 l)) (gI (nthx 2 l))
   else if is op "iter" then HIter (rd_oty (nthx 1 l))
+  else if is op "segs" then HSegs (rd_oty (nthx 1 l))
   else if is op "has" then HHas (gB (nthx 1 l))
   else if is op "index" then HIndex (gB (nthx 1 l))
   else HByName (gB (nthx 1 l)).
 Definition sx_hans (a : hans) : sx :=
   match a with
   | ASects l => SL (map (fun s => sx_section (obs_sect s)) l)
+  | ASegs l => SL (map (fun g => sx_segment (obs_segm g)) l)
   | ABool b => sx_bool b
   | AIndex i => sx_opt SI i
   | ASect x => sx_opt (fun s => sx_section (obs_sect s)) x
